@@ -9,7 +9,7 @@
 From Coq Require Import List ZArith Bool String Lia Floats.PrimFloat.
 From LBFGSB Require Model.Dcsrch Model.DriverDcs.
 From LBFGSB Require Import Base.Res Model.SF Model.FloatVec Model.Driver Model.Restore Generated.Memory
-  Proofs.RestoreProofs Proofs.RestoreInst Proofs.DriverShape Proofs.DriverRestart Proofs.DriverRestartState Generated.StopTests.
+  Proofs.RestoreProofs Proofs.RestoreInst Proofs.DriverShape Proofs.DriverRestart Proofs.DriverRestartState Proofs.DriverSnapshot Proofs.DriverSplit Generated.StopTests.
 Import ListNotations.
 Open Scope Z_scope.
 
@@ -108,6 +108,34 @@ Theorem C06_restart_continues : forall U K c (s : lst) ck (X0 G0 : list vec) t3 
   loop U K c fuel ft gt (first_state U K c (s_x s) (s_f s) (s_g s) (snd (restored c)) t3) = loop U K c fuel ft gt s.
 Proof. exact restart_continues. Qed.
 
+(* (7) THE MAIN CLAUSE, in the exact setting: the loop of the uninterrupted run (maxiter N) IS the loop of the interrupted run (maxiter k),
+   followed by the loop of the run restarted from its result - same events in the same order, same final state - under the
+   hypotheses of (5), (6).  [same_loop_cfg c c']: the restarted configuration differs from the original one only in fields the
+   loop does not read (x0, the checkpoint, the tolerances resolved before the loop). *)
+Theorem C06_uninterrupted_is_interrupted_then_restarted :
+  forall U K c c' (k : Z) ft gt (s0 s_k : lst) tr1 ck (X0 G0 : list vec) t3 stp1,
+  loop U K (with_maxiter k c) (Z.to_nat (k - s_nit s0)) ft gt s0 = (Res.Ok s_k, tr1) ->
+  s_nit s_k = k -> guard c gt s_k = true ->
+  same_loop_cfg c c' ->
+  checkpoint c' = Some ck -> r_nit ck = s_nit s_k -> u_upd U = None ->
+  s_X s_k = X0 ++ [s_x s_k] -> s_G s_k = G0 ++ [s_g s_k] -> X0 <> [] ->
+  Z.of_nat (List.length (s_X s_k)) <= maxcor c' + 1 -> List.length G0 = List.length X0 ->
+  curvature_ok K c' (s_x s_k) (s_g s_k) (last X0 []) (last G0 []) = true -> s_mats s_k = Some (s_X s_k, s_G s_k) ->
+  Driver.restore c' ck = (X0, G0) ->
+  s_msg s_k = MStart -> s_succ s_k = false -> s_warn s_k = 2 ->
+  same_counts (s_sf s_k) t3 ->
+  let d := direction K s_k in
+  let stpmax := if s_nit s_k =? 0 then fone else maxstep (s_x s_k) d (lb c') (ub c') (max_steplength c') in
+  let stp0 := if (s_nit s_k =? 0) && negb (is_boxed c') then StopTests.pymin (div fone (sqrt (vdot K d d))) stpmax else fone in
+  dcs K (ftol_ls c', gtol_ls c', xtol_ls c', stpmax) [(stp0, s_f s_k, vdot K (s_g s_k) d)] = (stp1, TFG) ->
+  (0 < Z.to_nat (ls_cap c' s_k))%nat ->
+  veqb (vclip (vaxpy (s_x s_k) stp1 d) (lb c') (ub c')) (SF.sx _ _ _ _ (s_sf s_k)) = false ->
+  veqb (vclip (vaxpy (s_x s_k) stp1 d) (lb c') (ub c')) (SF.sx _ _ _ _ t3) = false ->
+  loop U K c (Z.to_nat (maxiter c - s_nit s0)) ft gt s0 =
+  prepend tr1 (loop U K c' (Z.to_nat (maxiter c - k)) ft gt
+                 (first_state U K c' (s_x s_k) (s_f s_k) (s_g s_k) (snd (restored c')) t3)).
+Proof. exact split_then_restart. Qed.
+
 (* the fields of a returned result that a restart reads are those of the last loop state *)
 Theorem C06_result_fields : forall c gt (s : lst), let r := snapshot (classify c gt s) (s_nit (classify c gt s)) in
   r_x r = s_x s /\ r_fun r = s_f s /\ r_jac r = s_g s /\ r_nit r = s_nit s /\
@@ -138,13 +166,22 @@ Example C06_example :
   loop UE KE (cE 4 0.5%float (Some ckE)) 3 None gtE
        (first_state UE KE (cE 4 0.5%float (Some ckE)) (s_x sE1) (s_f sE1) (s_g sE1) (snd (restored (cE 4 0.5%float (Some ckE)))) tE3)
   = loop UE KE (cE 4 0.5%float (Some ckE)) 3 None gtE sE1 /\
+  (* hence (7): the uninterrupted run's loop (maxiter 4, from the start state) = the interrupted prefix followed by the restarted loop *)
+  loop UE KE (cE 4 1%float None) 4 None gtE sE0 =
+  prepend (snd (loop UE KE (cE 1 1%float None) 1 None gtE sE0))
+          (loop UE KE (cE 4 0.5%float (Some ckE)) 3 None gtE
+             (first_state UE KE (cE 4 0.5%float (Some ckE)) (s_x sE1) (s_f sE1) (s_g sE1) (snd (restored (cE 4 0.5%float (Some ckE)))) tE3)) /\
   (* which performs iterations (the final iterate is 1/16 after 3 more halvings) *)
   (exists s tr, loop UE KE (cE 4 0.5%float (Some ckE)) 3 None gtE sE1 = (Res.Ok s, tr) /\ s_x s = [0.0625%float] /\ s_nit s = 4).
 Proof.
-  split; [vm_compute; reflexivity|]. split.
+  split; [vm_compute; reflexivity|]. split; [|split].
   - apply (restart_continues UE KE (cE 4 0.5%float (Some ckE)) sE1 ckE [[1%float]] [[2%float]] tE3 0x1p+0%float 3 None gtE);
       try (vm_compute; reflexivity); try (vm_compute; discriminate); try (vm_compute; lia).
-    + vm_compute. repeat split.
+    vm_compute. repeat split.
+  - apply (split_then_restart UE KE (cE 4 1%float None) (cE 4 0.5%float (Some ckE)) 1 None gtE sE0 sE1
+             (snd (loop UE KE (cE 1 1%float None) 1 None gtE sE0)) ckE [[1%float]] [[2%float]] tE3 0x1p+0%float);
+      try (vm_compute; reflexivity); try (vm_compute; discriminate); try (vm_compute; lia).
+    vm_compute. repeat split.
   - eexists. eexists. split; [vm_compute; reflexivity|]. split; reflexivity.
 Qed.
 
@@ -163,3 +200,4 @@ Print Assumptions C06_model_is_instance.
 Print Assumptions C06_restart_without_iteration.
 Print Assumptions C06_restart_state.
 Print Assumptions C06_restart_continues.
+Print Assumptions C06_uninterrupted_is_interrupted_then_restarted.
